@@ -7,6 +7,9 @@ fn fmt_round<R: Round>(&self, f: &mut Formatter<'_>) -> fmt::Result
         old(f).prec() is Some ==> old(f).prec().unwrap() <= 0xffff_ffff,
         // exponent range: isize overflow of `precision + exponent` is outside this contract
         isize::MIN < self.exponent, self.exponent as int + 0xffff_ffff <= isize::MAX,
+        // resource limit: exponent overflow is a documented panic (C16), not modelled: the rounding drops
+        // -(precision + exponent) <= -exponent digits (`split_digits_ref`: bit position `pos * log2(B)` in usize)
+        self.exponent < 0 ==> pos_room(-(self.exponent as int)),
     ensures
         // infinities are printed as `inf` / `-inf` and nothing else
         (self.significand.v() == 0 && self.exponent != 0 && ret is Ok) ==>
